@@ -12,6 +12,7 @@ import TsRsVerif.Driver.ProgIO
 import TsRsVerif.Model.TsNorm
 import TsRsVerif.Model.TsWitness
 import TsRsVerif.Model.Attr
+import TsRsVerif.Model.Validity
 open Lean TsRs
 
 def gs (j : Json) (k : String) : Str :=
@@ -229,6 +230,19 @@ def tokLists (j : Json) (k : String) : List (List Tok) :=
 def posOf : String → Pos
   | "struct" => .struct | "enum" => .enum | "variant" => .variant | _ => .field
 
+def shapeOfJ (j : Json) : Shape :=
+  match j.getObjValAs? String "shape" with
+  | .ok "tuple" => .tuple | .ok "unit" => .unit | _ => .named
+
+def aField (j : Json) : Validity.AField :=
+  { named := gb j "named", ts := tokLists j "ts", serde := tokLists j "serde" }
+
+def aItem (j : Json) : Validity.AItem :=
+  { isEnum := gb j "is_enum", ts := tokLists j "ts", serde := tokLists j "serde", shape := shapeOfJ j,
+    fields := (ProgIO.arr j "fields").map aField,
+    variants := (ProgIO.arr j "variants").map fun v =>
+      { shape := shapeOfJ v, ts := tokLists v "ts", serde := tokLists v "serde", fields := (ProgIO.arr v "fields").map aField } }
+
 def canonParsed (p : Parsed) : String :=
   let norm := p.map fun (k, v) => (k, if k = "concrete" ∨ k = "bound" then "true" else v)
   let items := (norm.filter fun (k, _) => k ≠ "crate_rename").map fun (k, v) => k ++ "=" ++ v
@@ -274,6 +288,10 @@ def handle (ops : CharOps) (j : Json) : Json :=
   | "attrs" =>
     match Attr.fromAttrs (gb j "serde_compat") (posOf (String.ofList (gs j "pos"))) (tokLists j "ts") (tokLists j "serde") with
     | .ok p => Json.mkObj [("ok", Json.str (canonParsed p))]
+    | .error m => Json.mkObj [("err", Json.str m)]
+  | "derive_outcome" =>
+    match Validity.derive (gb j "serde_compat") (aItem j) with
+    | .ok => Json.mkObj [("ok", Json.bool true)]
     | .error m => Json.mkObj [("err", Json.str m)]
   | "oracle_c07" =>
     -- generic declaration vs concrete declaration of one instantiation
